@@ -208,7 +208,7 @@ class CountingBloomSubject(BloomSubject):
         return {"op": "add", "k": rng.below(u), "n": n}
 
     def apply_op(self, st):
-        key = seams.key_of(st["k"])
+        key = seams.key_of(st["k"]) if "k" in st else None
         if st["op"] == "add":
             r = self.obj.add(key, st["n"])
             self.model[st["k"]] = self.model.get(st["k"], 0) + st["n"]
@@ -395,7 +395,7 @@ class SketchSubject(Subject):
         return seams.key_of(k)
 
     def apply_op(self, st):
-        key = self.key(st["k"])
+        key = self.key(st["k"]) if "k" in st else None
         if st["op"] == "add":
             r = self.obj.add(key, st["n"])
             self.model[st["k"]] = self.model.get(st["k"], 0) + st["n"]
